@@ -155,6 +155,9 @@ func evalOpHere(line string) string {
 	if !ok {
 		return "bad-op"
 	}
+	if opHangs.Load() >= 3 {
+		return "not-run-after-3-hangs" // the run has failed already; do not spend two minutes on every further op
+	}
 	done := make(chan string, 1)
 	go func() {
 		defer func() {
